@@ -333,11 +333,12 @@ impl World {
         let r = self.q::<AllowanceResponse>(QueryMsg::Allowance { owner: o.to_string(), spender: s.to_string() })?;
         Ok((r.allowance.u128(), r.expires))
     }
-    fn all_accounts(&self) -> Result<Vec<String>, String> {
+    /// walk AllAccounts to the first empty page with the given page size (cursor = last returned key)
+    fn all_accounts(&self, limit: u32) -> Result<Vec<String>, String> {
         let mut out: Vec<String> = vec![];
         let mut cursor: Option<String> = None;
         loop {
-            let page = self.q::<AllAccountsResponse>(QueryMsg::AllAccounts { start_after: cursor.clone(), limit: Some(30) })?.accounts;
+            let page = self.q::<AllAccountsResponse>(QueryMsg::AllAccounts { start_after: cursor.clone(), limit: Some(limit) })?.accounts;
             if page.is_empty() {
                 return Ok(out);
             }
@@ -763,7 +764,10 @@ pub fn run_case(prop: &str, case: &Case, ctx: &mut CaseCtx) -> Result<(), Violat
 fn check_state(prop: &str, w: &World, o: &Obs, inst_cap: Option<u128>, at: &str) -> Result<(), Violation> {
     match prop {
         "C01" => {
-            let listed = w.all_accounts().map_err(|e| v(prop, "query-failed", e))?;
+            // the listing is walked page by page; the page size varies with the block so that every
+            // size from 1 up is used along a history ("the accounts it lists" must not depend on it)
+            let limit = [1u32, 2, 3, 30][((w.d.height + w.d.time) % 4) as usize];
+            let listed = w.all_accounts(limit).map_err(|e| v(prop, "query-failed", e))?;
             let mut seen = BTreeSet::new();
             let mut sum: u128 = 0;
             for a in &listed {
